@@ -26,6 +26,7 @@ def main() -> int:
         signal.alarm(watchdog)
     status = "ok"
     error = None
+    abandoned = 0
     gc.disable()  # cycles are collected at fixed points by the harnesses (determinism)
     try:
         sample_every = 0
@@ -39,19 +40,29 @@ def main() -> int:
             if split == 0 and (idx + seed) % nshards != shard:
                 continue
             before = stats.executions
-            explore(
-                harness,
-                program,
-                idx,
-                stats,
-                bound=cfg.get("bound"),
-                cap=cfg.get("cap"),
-                split_depth=split,
-                shard=shard,
-                nshards=nshards,
-                sample_every=sample_every,
-                recheck_every=int(os.environ.get("HV_RECHECK_EVERY", "97") or 97),
-            )
+            try:
+                explore(
+                    harness,
+                    program,
+                    idx,
+                    stats,
+                    bound=cfg.get("bound"),
+                    cap=cfg.get("cap"),
+                    split_depth=split,
+                    shard=shard,
+                    nshards=nshards,
+                    sample_every=sample_every,
+                    recheck_every=int(os.environ.get("HV_RECHECK_EVERY", "97") or 97),
+                )
+            except (HarnessError, ReplayDivergence) as exc:
+                # this program is abandoned (still a harness error for the run), the remaining
+                # programs are explored: violations found elsewhere stay reportable
+                status = "harness-error"
+                abandoned += 1
+                if error is None:
+                    error = "".join(traceback.format_exception(exc))
+                if abandoned > 200:
+                    break
             since_gc += stats.executions - before
             if since_gc > 300:
                 since_gc = 0
